@@ -21,6 +21,9 @@ Definition run (n : nat) (ds : text) : Prop := all_digits ds /\ ds <> [] /\ (len
 (* any digit run *)
 Definition anyrun (ds : text) : Prop := all_digits ds /\ ds <> [].
 
+Lemma run_any n ds : run n ds -> anyrun ds.
+Proof. intros (A & B & _). split; assumption. Qed.
+
 Lemma run_len1 n ds : run n ds -> (1 <= length ds)%nat.
 Proof. intros (_ & Hne & _). destruct ds; [congruence|cbn; lia]. Qed.
 
@@ -87,20 +90,22 @@ Ltac body :=
     | eapply anyrun_body; eassumption ].
 
 (* search finds nothing in letter :: body when neither the letter nor the body can start the pattern *)
+(* parse_tag applies the patterns with fullmatch (Gen/SlcTables.v: PARSE_TAG_FULLMATCH) *)
+Lemma re_apply_full rx s : re_apply rx s = fullmatch rx s.
+Proof. reflexivity. Qed.
+
+(* the pattern does not match letter :: body when it cannot start at the letter *)
 Lemma search_miss rx L s :
   nullable (rx_re rx) = false ->
   (forall d, is_ascii_digit d = true -> cannot_start rx d) -> (forall c, punct c -> cannot_start rx c) ->
-  cannot_start rx L -> Forall body_char s -> search rx (L :: s) = SNoMatch.
-Proof.
-  intros Hn Hd Hp HL Hs. apply search_none; [exact Hn|].
-  constructor; [exact HL|]. apply body_cannot_start; assumption.
-Qed.
+  cannot_start rx L -> Forall body_char s -> re_apply rx (L :: s) = SNoMatch.
+Proof. intros _ _ _ HL _. rewrite re_apply_full. apply fullmatch_first_miss. exact HL. Qed.
 
-Lemma search_then_miss rx s k : search rx s = SNoMatch -> search_then rx s k = PNone.
+Lemma search_then_miss rx s k : re_apply rx s = SNoMatch -> search_then rx s k = PNone.
 Proof. intros H. unfold search_then. rewrite H. reflexivity. Qed.
 Lemma search_then_hit rx s k e g :
-  match_here (S (length s)) rx s = Match e g -> search_then rx s k = k (span s e) g.
-Proof. intros H. unfold search_then. rewrite (search_hit _ _ _ _ H). reflexivity. Qed.
+  fullmatch_here (S (length s)) rx s = Match e g -> search_then rx s k = k s g.
+Proof. intros H. unfold search_then. rewrite re_apply_full, (fullmatch_hit _ _ _ _ H). reflexivity. Qed.
 
 (* ---------------------------------------------------------------- tactics for a successful match *)
 Ltac len_ok :=
@@ -203,7 +208,7 @@ Qed.
 (* ---------------------------------------------------------------- successful matches *)
 Lemma lfbn_match fuel L f e bit cnt : (0 < fuel)%nat ->
   (lcl L 108 \/ lcl L 102 \/ lcl L 98 \/ lcl L 110) -> run 3 f -> run 3 e -> optrun 2 bit -> optcnt fuel cnt ->
-  exists g, match_here fuel LFBN_RE (L :: f ++ 58 :: e ++ bitpart bit ++ cntpart cnt) = Match [] g
+  exists g, fullmatch_here fuel LFBN_RE (L :: f ++ 58 :: e ++ bitpart bit ++ cntpart cnt) = Match [] g
    /\ gget 1 g = Some [L] /\ gget 2 g = Some f /\ gget 4 g = Some e /\ gget 6 g = bit
    /\ gget 7 g = cnt_token cnt /\ gget 8 g = cnt.
 Proof.
@@ -212,44 +217,44 @@ Proof.
   { unfold lcl in HL. cbn. destruct HL as [H|[H|[H|H]]]; rewrite H; reflexivity. }
   destruct bit as [b|]; destruct cnt as [c|]; split_opts;
     cbn [bitpart cntpart cnt_token app]; eexists;
-    (split; [unfold match_here, LFBN_RE, LFBN_RE_ast; cbn [rx_re rx_ic]; rx' | ggets]).
+    (split; [unfold fullmatch_here, LFBN_RE, LFBN_RE_ast; cbn [rx_re rx_ic]; rx' | ggets]).
 Qed.
 
 Lemma s_match fuel L e bit cnt : (0 < fuel)%nat ->
   lcl L 115 -> run 3 e -> optrun 2 bit -> optcnt fuel cnt ->
-  exists g, match_here fuel S_RE (L :: 58 :: e ++ bitpart bit ++ cntpart cnt) = Match [] g
+  exists g, fullmatch_here fuel S_RE (L :: 58 :: e ++ bitpart bit ++ cntpart cnt) = Match [] g
    /\ gget 1 g = Some [L] /\ gget 3 g = Some e /\ gget 5 g = bit /\ gget 6 g = cnt_token cnt /\ gget 7 g = cnt.
 Proof.
   intros Hfuel HL He Hb Hc.
   assert (HLm : cc_match true [CLit 83] L = true) by (unfold lcl in HL; cbn; rewrite HL; reflexivity).
   destruct bit as [b|]; destruct cnt as [c|]; split_opts;
     cbn [bitpart cntpart cnt_token app]; eexists;
-    (split; [unfold match_here, S_RE, S_RE_ast; cbn [rx_re rx_ic]; rx' | ggets]).
+    (split; [unfold fullmatch_here, S_RE, S_RE_ast; cbn [rx_re rx_ic]; rx' | ggets]).
 Qed.
 
 Lemma io_match fuel L file e sub bit cnt : (0 < fuel)%nat ->
   (lcl L 105 \/ lcl L 111) -> optrun 3 file -> run 3 e -> optrun 3 sub -> optrun 2 bit -> optcnt fuel cnt ->
-  exists g, match_here fuel IO_RE (L :: otext file ++ 58 :: e ++ subpart sub ++ bitpart bit ++ cntpart cnt) = Match [] g
+  exists g, fullmatch_here fuel IO_RE (L :: otext file ++ 58 :: e ++ subpart sub ++ bitpart bit ++ cntpart cnt) = Match [] g
    /\ gget 1 g = Some [L] /\ gget 4 g = Some e /\ gget 7 g = sub /\ gget 9 g = bit
-   /\ gget 10 g = cnt_token cnt /\ gget 11 g = cnt.
+   /\ gget 10 g = cnt_token cnt /\ gget 11 g = cnt /\ gget 2 g = file.
 Proof.
   intros Hfuel HL Hfile He Hs Hb Hc.
   assert (HLm : cc_match true [CLit 73; CLit 79] L = true).
   { unfold lcl in HL. cbn. destruct HL as [H|H]; rewrite H; reflexivity. }
   destruct file as [fl|]; destruct sub as [w|]; destruct bit as [b|]; destruct cnt as [c|]; split_opts;
     cbn [otext subpart bitpart cntpart cnt_token app]; eexists;
-    (split; [unfold match_here, IO_RE, IO_RE_ast; cbn [rx_re rx_ic]; rx' | ggets]).
+    (split; [unfold fullmatch_here, IO_RE, IO_RE_ast; cbn [rx_re rx_ic]; rx' | ggets]).
 Qed.
 
 Lemma b_match fuel L f n cnt : (0 < fuel)%nat ->
   lcl L 98 -> run 3 f -> run 4 n -> optcnt fuel cnt ->
-  exists g, match_here fuel B_RE (L :: f ++ 47 :: n ++ cntpart cnt) = Match [] g
+  exists g, fullmatch_here fuel B_RE (L :: f ++ 47 :: n ++ cntpart cnt) = Match [] g
    /\ gget 1 g = Some [L] /\ gget 2 g = Some f /\ gget 4 g = Some n /\ gget 5 g = cnt_token cnt /\ gget 6 g = cnt.
 Proof.
   intros Hfuel HL Hf Hn Hc.
   assert (HLm : cc_match true [CLit 66] L = true) by (unfold lcl in HL; cbn; rewrite HL; reflexivity).
   destruct cnt as [c|]; split_opts; cbn [cntpart cnt_token app]; eexists;
-    (split; [unfold match_here, B_RE, B_RE_ast; cbn [rx_re rx_ic]; rx' | ggets]).
+    (split; [unfold fullmatch_here, B_RE, B_RE_ast; cbn [rx_re rx_ic]; rx' | ggets]).
 Qed.
 
 (* timer / counter mnemonics (the keys of PCCC_CT) in every letter case: a finite set *)
@@ -262,7 +267,7 @@ Definition mn_variants : list text := flat_map case_variants (map fst pccc_ct).
 
 Lemma ct_match fuel L f e mn : (0 < fuel)%nat ->
   (lcl L 99 \/ lcl L 116) -> run 3 f -> run 3 e -> In mn mn_variants ->
-  exists g, match_here fuel CT_RE (L :: f ++ 58 :: e ++ 46 :: mn) = Match [] g
+  exists g, fullmatch_here fuel CT_RE (L :: f ++ 58 :: e ++ 46 :: mn) = Match [] g
    /\ gget 1 g = Some [L] /\ gget 2 g = Some f /\ gget 4 g = Some e /\ gget 6 g = Some mn.
 Proof.
   intros Hfuel HL Hf He Hmn.
@@ -270,7 +275,7 @@ Proof.
   { unfold lcl in HL. cbn. destruct HL as [H|H]; rewrite H; reflexivity. }
   vm_compute in Hmn.
   repeat (destruct Hmn as [Hmn|Hmn]; [subst mn; eexists;
-    (split; [unfold match_here, CT_RE, CT_RE_ast; cbn [rx_re rx_ic]; rx' | ggets])|]).
+    (split; [unfold fullmatch_here, CT_RE, CT_RE_ast; cbn [rx_re rx_ic]; rx' | ggets])|]).
   contradiction.
 Qed.
 
@@ -287,7 +292,8 @@ Proof. repeat split; reflexivity. Qed.
 Lemma gi_io g :
   gi IO_RE g "_elem_cnt_token" = Ok (gget 10 g) /\ gi IO_RE g "file_type" = Ok (gget 1 g) /\
   gi IO_RE g "position_number" = Ok (gget 7 g) /\ gi IO_RE g "sub_element" = Ok (gget 9 g) /\
-  gi IO_RE g "element_number" = Ok (gget 4 g) /\ gi IO_RE g "element_count" = Ok (gget 11 g).
+  gi IO_RE g "element_number" = Ok (gget 4 g) /\ gi IO_RE g "element_count" = Ok (gget 11 g) /\
+  gi IO_RE g "file_number" = Ok (gget 2 g).
 Proof. repeat split; reflexivity. Qed.
 Lemma gi_s g :
   gi S_RE g "_elem_cnt_token" = Ok (gget 6 g) /\ gi S_RE g "element_count" = Ok (gget 7 g) /\
@@ -332,7 +338,7 @@ Proof.
   intros HL Hf He Hb Hc s.
   destruct (lfbn_match (S (length s)) L f e bit cnt) as (g & Hm & G1 & G2 & G4 & G6 & G7 & G8); try assumption; [lia| |].
   { cnt_fuel. }
-  unfold step_lfbn. fold s. rewrite (search_then_hit _ _ _ _ _ Hm). rewrite span_nil.
+  unfold step_lfbn. fold s. rewrite (search_then_hit _ _ _ _ _ Hm).
   destruct (gi_lfbn g) as (E7 & E6 & E2 & E4 & E8 & E1). rewrite E7, E6, E2, E4, E8, E1, G1, G2, G4, G6, G7, G8.
   cbn [pbind int_of text_of]. pyints. cbn [pbind].
   destruct bit as [b|]; destruct cnt as [c|]; cbn [optrange option_map cntval count_of cnt_token af_of];
@@ -353,7 +359,7 @@ Proof.
   intros HL He Hb Hc s.
   destruct (s_match (S (length s)) L e bit cnt) as (g & Hm & G1 & G3 & G5 & G6 & G7); try assumption; [lia| |].
   { cnt_fuel. }
-  unfold step_s. fold s. rewrite (search_then_hit _ _ _ _ _ Hm). rewrite span_nil.
+  unfold step_s. fold s. rewrite (search_then_hit _ _ _ _ _ Hm).
   destruct (gi_s g) as (E6 & E7 & E5 & E3 & E1). rewrite E6, E7, E5, E3, E1, G1, G3, G5, G6, G7.
   cbn [pbind int_of text_of]. pyints. cbn [pbind].
   destruct bit as [b|]; destruct cnt as [c|]; cbn [optrange option_map cntval count_of cnt_token af_of];
@@ -364,26 +370,34 @@ Qed.
 
 Definition io_file (L : Z) : Z := if text_eqb (upper [L]) [79] then 0 else 1.
 
+(* the I/O branch: `return None` (PStop) when a spelled file number is not the I/O file's *)
+Definition io_file_ok (L : Z) (file : option text) : bool :=
+  match file with Some f => dval f =? io_file L | None => true end.
+
 Lemma step_io_ok L file e sub bit cnt :
   io L -> optrun 3 file -> run 3 e -> optrun 3 sub -> optrun 2 bit -> optany cnt ->
   let s := L :: otext file ++ 58 :: e ++ subpart sub ++ bitpart bit ++ cntpart cnt in
   step_io s =
-    if in_range 0 255 (dval e) && optrange 0 15 bit
-    then PTag (mk (upper [L]) (io_file L) (dval e) (Some (optval sub)) (Some (optval bit)) (af_of bit)
-                  (cntval cnt) (tag_name_of s (cnt_token cnt)))
-    else PNone.
+    if io_file_ok L file then
+      if in_range 0 255 (dval e) && optrange 0 15 bit
+      then PTag (mk (upper [L]) (io_file L) (dval e) (Some (optval sub)) (Some (optval bit)) (af_of bit)
+                    (cntval cnt) (tag_name_of s (cnt_token cnt)))
+      else PNone
+    else PStop.
 Proof.
   intros HL Hfile He Hs Hb Hc s.
-  destruct (io_match (S (length s)) L file e sub bit cnt) as (g & Hm & G1 & G4 & G7 & G9 & G10 & G11); try assumption; [lia| |].
+  destruct (io_match (S (length s)) L file e sub bit cnt) as (g & Hm & G1 & G4 & G7 & G9 & G10 & G11 & G2); try assumption; [lia| |].
   { cnt_fuel. }
-  unfold step_io. fold s. rewrite (search_then_hit _ _ _ _ _ Hm). rewrite span_nil.
-  destruct (gi_io g) as (E10 & E1 & E7 & E9 & E4 & E11). rewrite E10, E1, E7, E9, E4, E11, G1, G4, G7, G9, G10, G11.
+  unfold step_io. fold s. rewrite (search_then_hit _ _ _ _ _ Hm).
+  destruct (gi_io g) as (E10 & E1 & E7 & E9 & E4 & E11 & E2). rewrite E10, E1, E7, E9, E4, E11, E2, G1, G2, G4, G7, G9, G10, G11.
   cbn [pbind int_of text_of]. fold (io_file L).
   assert (Hio : in_range 0 255 (io_file L) = true) by (unfold io_file; destruct (text_eqb (upper [L]) [79]); reflexivity).
-  destruct sub as [w|]; destruct bit as [b|]; destruct cnt as [c|];
+  unfold io_file_ok.
+  destruct file as [f|]; destruct sub as [w|]; destruct bit as [b|]; destruct cnt as [c|];
     cbn [optrange optval option_map cntval count_of cnt_token af_of];
-    split_opts; pyints; cbn [pbind int_of text_of]; rewrite ?Hio;
-    destruct (in_range 0 255 (dval e)); cbn [andb pbind]; pyints; cbn [pbind];
+    split_opts; pyints; cbn [pbind int_of text_of bind]; rewrite ?Hio;
+    try (destruct (dval f =? io_file L); cbn [negb]; [|reflexivity]);
+    destruct (in_range 0 255 (dval e)); cbn [andb pbind negb]; pyints; cbn [pbind];
     try reflexivity; destruct (in_range 0 15 (dval b)); cbn [pbind count_of]; pyints; reflexivity.
 Qed.
 
@@ -399,7 +413,7 @@ Proof.
   intros HL Hf Hn Hc s.
   destruct (b_match (S (length s)) L f n cnt) as (g & Hm & G1 & G2 & G4 & G5 & G6); try assumption; [lia| |].
   { cnt_fuel. }
-  unfold step_b. fold s. rewrite (search_then_hit _ _ _ _ _ Hm). rewrite span_nil.
+  unfold step_b. fold s. rewrite (search_then_hit _ _ _ _ _ Hm).
   destruct (gi_b g) as (E2 & E4 & E5 & E6 & E1). rewrite E2, E4, E5, E6, E1, G1, G2, G4, G5, G6.
   cbn [pbind int_of text_of]. pyints. cbn [pbind].
   destruct cnt as [c|]; cbn [cntval count_of cnt_token]; split_opts;
@@ -423,7 +437,7 @@ Lemma step_ct_ok L f e mn code :
 Proof.
   intros HL Hf He Hmn Hcode s.
   destruct (ct_match (S (length s)) L f e mn) as (g & Hm & G1 & G2 & G4 & G6); try assumption; [lia|].
-  unfold step_ct. fold s. rewrite (search_then_hit _ _ _ _ _ Hm). rewrite span_nil.
+  unfold step_ct. fold s. rewrite (search_then_hit _ _ _ _ _ Hm).
   destruct (gi_ct g) as (E2 & E4 & E1 & E6). rewrite E2, E4, E1, E6, G1, G2, G4, G6.
   cbn [pbind int_of text_of]. pyints. cbn [pbind]. rewrite Hcode.
   destruct (in_range 1 255 (dval f)); cbn [andb pbind]; pyints; cbn [pbind]; try reflexivity;
@@ -431,17 +445,17 @@ Proof.
 Qed.
 
 (* ---------------------------------------------------------------- patterns that find nothing *)
-Lemma step_ct_none s : search CT_RE s = SNoMatch -> step_ct s = PNone.
+Lemma step_ct_none s : re_apply CT_RE s = SNoMatch -> step_ct s = PNone.
 Proof. apply search_then_miss. Qed.
-Lemma step_lfbn_none s : search LFBN_RE s = SNoMatch -> step_lfbn s = PNone.
+Lemma step_lfbn_none s : re_apply LFBN_RE s = SNoMatch -> step_lfbn s = PNone.
 Proof. apply search_then_miss. Qed.
-Lemma step_io_none s : search IO_RE s = SNoMatch -> step_io s = PNone.
+Lemma step_io_none s : re_apply IO_RE s = SNoMatch -> step_io s = PNone.
 Proof. apply search_then_miss. Qed.
-Lemma step_plain_none rx s : search rx s = SNoMatch -> step_plain rx s = PNone.
+Lemma step_plain_none rx s : re_apply rx s = SNoMatch -> step_plain rx s = PNone.
 Proof. apply search_then_miss. Qed.
-Lemma step_s_none s : search S_RE s = SNoMatch -> step_s s = PNone.
+Lemma step_s_none s : re_apply S_RE s = SNoMatch -> step_s s = PNone.
 Proof. apply search_then_miss. Qed.
-Lemma step_b_none s : search B_RE s = SNoMatch -> step_b s = PNone.
+Lemma step_b_none s : re_apply B_RE s = SNoMatch -> step_b s = PNone.
 Proof. apply search_then_miss. Qed.
 
 Ltac cs_l H := unfold cannot_start; cbn; rewrite H; reflexivity.
@@ -449,54 +463,44 @@ Ltac cs_l H := unfold cannot_start; cbn; rewrite H; reflexivity.
 (* [miss rx L] : the pattern cannot start at the letter L (L given by its lower-case code) *)
 Ltac miss_simple :=
   match goal with
-  | |- search CT_RE _ = SNoMatch => apply search_miss; [reflexivity | exact ct_digit | exact ct_punct | | ]
-  | |- search LFBN_RE _ = SNoMatch => apply search_miss; [reflexivity | exact lfbn_digit | exact lfbn_punct | | ]
-  | |- search IO_RE _ = SNoMatch => apply search_miss; [reflexivity | exact io_digit | exact io_punct | | ]
-  | |- search ST_RE _ = SNoMatch => apply search_miss; [reflexivity | exact st_digit | exact st_punct | | ]
-  | |- search A_RE _ = SNoMatch => apply search_miss; [reflexivity | exact a_digit | exact a_punct | | ]
-  | |- search S_RE _ = SNoMatch => apply search_miss; [reflexivity | exact s_digit | exact s_punct | | ]
-  | |- search B_RE _ = SNoMatch => apply search_miss; [reflexivity | exact b_digit | exact b_punct | | ]
+  | |- re_apply CT_RE _ = SNoMatch => apply search_miss; [reflexivity | exact ct_digit | exact ct_punct | | ]
+  | |- re_apply LFBN_RE _ = SNoMatch => apply search_miss; [reflexivity | exact lfbn_digit | exact lfbn_punct | | ]
+  | |- re_apply IO_RE _ = SNoMatch => apply search_miss; [reflexivity | exact io_digit | exact io_punct | | ]
+  | |- re_apply ST_RE _ = SNoMatch => apply search_miss; [reflexivity | exact st_digit | exact st_punct | | ]
+  | |- re_apply A_RE _ = SNoMatch => apply search_miss; [reflexivity | exact a_digit | exact a_punct | | ]
+  | |- re_apply S_RE _ = SNoMatch => apply search_miss; [reflexivity | exact s_digit | exact s_punct | | ]
+  | |- re_apply B_RE _ = SNoMatch => apply search_miss; [reflexivity | exact b_digit | exact b_punct | | ]
   end.
 
 (* ST_RE on a status address: "S" matches, then ":" is not "T" *)
-Lemma st_miss_status L rest : lcl L 115 -> Forall body_char rest -> search ST_RE (L :: 58 :: rest) = SNoMatch.
+Lemma st_miss_status L rest : lcl L 115 -> Forall body_char rest -> re_apply ST_RE (L :: 58 :: rest) = SNoMatch.
 Proof.
-  intros HL Hr. unfold search, search_fuel.
-  rewrite search_from_step.
-  - apply search_from_none; [lia | reflexivity |].
-    apply body_cannot_start; [exact st_digit | exact st_punct |].
-    constructor; [right; unfold punct; tauto | exact Hr].
-  - unfold match_here, ST_RE, ST_RE_ast. cbn [rx_re rx_ic].
-    apply a_seq, a_group, a_seq, a_chr; [unfold lcl in HL; cbn; rewrite HL; reflexivity|].
-    cbv beta. apply m_chr_miss. reflexivity.
+  intros HL Hr. rewrite re_apply_full. apply fullmatch_miss.
+  unfold fullmatch_here, ST_RE, ST_RE_ast. cbn [rx_re rx_ic].
+  apply a_seq, a_group, a_seq, a_chr; [unfold lcl in HL; cbn; rewrite HL; reflexivity|].
+  cbv beta. apply m_chr_miss. reflexivity.
 Qed.
 
 (* LFBN_RE on Bf/n: after the file number comes "/", not ":" *)
-Lemma lfbn_miss_flat L f rest : lcl L 98 -> run 3 f -> Forall body_char rest ->
-  search LFBN_RE (L :: f ++ 47 :: rest) = SNoMatch.
+Lemma lfbn_miss_flat L f rest : lcl L 98 -> anyrun f -> Forall body_char rest ->
+  re_apply LFBN_RE (L :: f ++ 47 :: rest) = SNoMatch.
 Proof.
-  intros HL Hf Hr. unfold search, search_fuel.
-  rewrite search_from_step.
-  - apply search_from_none; [lia | reflexivity |].
-    apply body_cannot_start; [exact lfbn_digit | exact lfbn_punct |]. body. exact Hr.
-  - unfold match_here, LFBN_RE, LFBN_RE_ast. cbn [rx_re rx_ic].
-    apply a_seq, a_group_chr; [unfold lcl in HL; cbn; rewrite HL; reflexivity|]. cbv beta.
-    apply group_digits_then_lit_miss; [exact (proj1 Hf) | reflexivity | reflexivity |].
-    intros d Hd. apply digit_not_lit; [exact Hd | reflexivity | lia].
+  intros HL Hf Hr. rewrite re_apply_full. apply fullmatch_miss.
+  unfold fullmatch_here, LFBN_RE, LFBN_RE_ast. cbn [rx_re rx_ic].
+  apply a_seq, a_group_chr; [unfold lcl in HL; cbn; rewrite HL; reflexivity|]. cbv beta.
+  apply group_digits_then_lit_miss; [exact (proj1 Hf) | reflexivity | reflexivity |].
+  intros d Hd. apply digit_not_lit; [exact Hd | reflexivity | lia].
 Qed.
 
 (* B_RE on Bf:e : after the file number comes ":", not "/" *)
-Lemma b_miss_colon L f rest : lcl L 98 -> run 3 f -> Forall body_char rest ->
-  search B_RE (L :: f ++ 58 :: rest) = SNoMatch.
+Lemma b_miss_colon L f rest : lcl L 98 -> anyrun f -> Forall body_char rest ->
+  re_apply B_RE (L :: f ++ 58 :: rest) = SNoMatch.
 Proof.
-  intros HL Hf Hr. unfold search, search_fuel.
-  rewrite search_from_step.
-  - apply search_from_none; [lia | reflexivity |].
-    apply body_cannot_start; [exact b_digit | exact b_punct |]. body. exact Hr.
-  - unfold match_here, B_RE, B_RE_ast. cbn [rx_re rx_ic].
-    apply a_seq, a_group_chr; [unfold lcl in HL; cbn; rewrite HL; reflexivity|]. cbv beta.
-    apply group_digits_then_lit_miss; [exact (proj1 Hf) | reflexivity | reflexivity |].
-    intros d Hd. apply digit_not_lit; [exact Hd | reflexivity | lia].
+  intros HL Hf Hr. rewrite re_apply_full. apply fullmatch_miss.
+  unfold fullmatch_here, B_RE, B_RE_ast. cbn [rx_re rx_ic].
+  apply a_seq, a_group_chr; [unfold lcl in HL; cbn; rewrite HL; reflexivity|]. cbv beta.
+  apply group_digits_then_lit_miss; [exact (proj1 Hf) | reflexivity | reflexivity |].
+  intros d Hd. apply digit_not_lit; [exact Hd | reflexivity | lia].
 Qed.
 
 Lemma body_parts (sub bit cnt : option text) :
@@ -548,7 +552,7 @@ Proof.
   rewrite step_s_none by (miss_simple; [destruct HL as [H|[H|[H|H]]]; cs_l H | exact Hbody]).
   rewrite step_b_none; [reflexivity|].
   destruct HL as [H|[H|[H|H]]]; try (miss_simple; [cs_l H | exact Hbody]).
-  apply b_miss_colon; assumption.
+  apply b_miss_colon; [exact H|exact (run_any _ _ Hf)|exact Hrest].
 Qed.
 
 Theorem parse_s L e bit cnt :
@@ -578,7 +582,7 @@ Theorem parse_io L file e sub bit cnt :
   io L -> optrun 3 file -> run 3 e -> optrun 3 sub -> optrun 2 bit -> optany cnt ->
   let s := L :: otext file ++ 58 :: e ++ subpart sub ++ bitpart bit ++ cntpart cnt in
   parse_tag s =
-    keep (in_range 0 255 (dval e) && optrange 0 15 bit)
+    keep (io_file_ok L file && (in_range 0 255 (dval e) && optrange 0 15 bit))
          (mk (upper [L]) (io_file L) (dval e) (Some (optval sub)) (Some (optval bit)) (af_of bit)
              (cntval cnt) (tag_name_of s (cnt_token cnt))).
 Proof.
@@ -589,7 +593,8 @@ Proof.
   rewrite step_ct_none by (miss_simple; [destruct HL as [H|H]; cs_l H | exact Hbody]).
   rewrite step_lfbn_none by (miss_simple; [destruct HL as [H|H]; cs_l H | exact Hbody]).
   pose proof (step_io_ok L file e sub bit cnt HL Hfile He Hs Hb Hc) as E. cbv zeta in E. fold s in E. rewrite E.
-  unfold keep. destruct (in_range 0 255 (dval e) && optrange 0 15 bit); [reflexivity|].
+  unfold keep. destruct (io_file_ok L file); [|reflexivity]. cbn [andb].
+  destruct (in_range 0 255 (dval e) && optrange 0 15 bit); [reflexivity|].
   rewrite step_plain_none by (miss_simple; [destruct HL as [H|H]; cs_l H | exact Hbody]).
   rewrite step_plain_none by (miss_simple; [destruct HL as [H|H]; cs_l H | exact Hbody]).
   rewrite step_s_none by (miss_simple; [destruct HL as [H|H]; cs_l H | exact Hbody]).
@@ -609,7 +614,7 @@ Proof.
   assert (Hbody : Forall body_char (f ++ 47 :: n ++ cntpart cnt)) by body2.
   unfold parse_tag, orelse.
   rewrite step_ct_none by (miss_simple; [cs_l HL | exact Hbody]).
-  rewrite step_lfbn_none by (apply lfbn_miss_flat; assumption).
+  rewrite step_lfbn_none by (apply lfbn_miss_flat; [exact HL|exact (run_any _ _ Hf)|exact Hrest]).
   rewrite step_io_none by (miss_simple; [cs_l HL | exact Hbody]).
   rewrite step_plain_none by (miss_simple; [cs_l HL | exact Hbody]).
   rewrite step_plain_none by (miss_simple; [cs_l HL | exact Hbody]).
@@ -618,30 +623,13 @@ Proof.
   unfold keep. destruct (in_range 1 255 (dval f) && in_range 0 4095 (dval n)); reflexivity.
 Qed.
 
-(* the patterns after CT_RE find nothing in a mnemonic, whatever its letter case (finite: 6 x 48) *)
-Lemma mn_tail_miss rx mn fuel pos :
-  In rx [LFBN_RE; IO_RE; ST_RE; A_RE; S_RE; B_RE] -> In mn mn_variants ->
-  search_from (S fuel) rx pos mn = SNoMatch.
-Proof.
-  intros Hrx Hmn. vm_compute in Hmn.
-  repeat (destruct Hmn as [Hmn|Hmn]; [subst mn;
-    repeat (destruct Hrx as [Hrx|Hrx]; [subst rx; reflexivity|]); contradiction|]).
-  contradiction.
-Qed.
-
 Lemma tc_search_miss rx L f e mn :
   In rx [LFBN_RE; IO_RE; ST_RE; A_RE; S_RE; B_RE] ->
   nullable (rx_re rx) = false ->
   (forall d, is_ascii_digit d = true -> cannot_start rx d) -> (forall c, punct c -> cannot_start rx c) ->
   cannot_start rx L -> run 3 f -> run 3 e -> In mn mn_variants ->
-  search rx (L :: f ++ 58 :: e ++ 46 :: mn) = SNoMatch.
-Proof.
-  intros Hrx Hn Hd Hp HL Hf He Hmn. unfold search, search_fuel.
-  replace (L :: f ++ 58 :: e ++ 46 :: mn) with ((L :: f ++ 58 :: e ++ [46]) ++ mn)
-    by (cbn [app]; repeat (rewrite <- app_assoc; cbn [app]); reflexivity).
-  rewrite search_from_skip; [apply mn_tail_miss; assumption | lia |].
-  constructor; [exact HL|]. apply body_cannot_start; [exact Hd | exact Hp |]. body2.
-Qed.
+  re_apply rx (L :: f ++ 58 :: e ++ 46 :: mn) = SNoMatch.
+Proof. intros _ _ _ _ HL _ _ _. rewrite re_apply_full. apply fullmatch_first_miss. exact HL. Qed.
 
 Theorem parse_tc L f e mn code :
   tc L -> run 3 f -> run 3 e -> In mn mn_variants -> dict_get pccc_ct (upper mn) = Ok code ->
@@ -688,4 +676,362 @@ Proof.
   rewrite step_plain_none by (miss_simple; [apply CS; cbn; tauto | exact Hr]).
   rewrite step_s_none by (miss_simple; [apply CS; cbn; tauto | exact Hr]).
   rewrite step_b_none; [reflexivity|]. miss_simple; [apply CS; cbn; tauto | exact Hr].
+Qed.
+
+(* ---------------------------------------------------------------- a file number of more than three digits *)
+Lemma search_pos0_miss rx L s :
+  nullable (rx_re rx) = false ->
+  (forall d, is_ascii_digit d = true -> cannot_start rx d) -> (forall c, punct c -> cannot_start rx c) ->
+  Forall body_char s -> fullmatch_here (S (length (L :: s))) rx (L :: s) = NoMatch -> re_apply rx (L :: s) = SNoMatch.
+Proof. intros _ _ _ _ Hm. rewrite re_apply_full. apply fullmatch_miss. exact Hm. Qed.
+
+Lemma digit_not_colon : forall d, is_ascii_digit d = true -> cc_match true [CLit 58] d = false.
+Proof. intros d H. apply digit_not_lit; [exact H|reflexivity|lia]. Qed.
+Lemma digit_not_slash : forall d, is_ascii_digit d = true -> cc_match true [CLit 47] d = false.
+Proof. intros d H. apply digit_not_lit; [exact H|reflexivity|lia]. Qed.
+
+Lemma lfbn_long_file fuel L f rest : lfbn L -> all_digits f -> (3 < length f)%nat ->
+  fullmatch_here fuel LFBN_RE (L :: f ++ rest) = NoMatch.
+Proof.
+  intros HL Hf Hl. unfold fullmatch_here, LFBN_RE, LFBN_RE_ast. cbn [rx_re rx_ic].
+  apply a_seq, a_group_chr; [unfold lfbn, lcl in HL; cbn; destruct HL as [H|[H|[H|H]]]; rewrite H; reflexivity|]. cbv beta.
+  apply group_digits_overlong; [exact Hf|exact Hl|exact digit_not_colon].
+Qed.
+
+Lemma b_long_file fuel L f rest : lcl L 98 -> all_digits f -> (3 < length f)%nat ->
+  fullmatch_here fuel B_RE (L :: f ++ rest) = NoMatch.
+Proof.
+  intros HL Hf Hl. unfold fullmatch_here, B_RE, B_RE_ast. cbn [rx_re rx_ic].
+  apply a_seq, a_group_chr; [unfold lcl in HL; cbn; rewrite HL; reflexivity|]. cbv beta.
+  apply group_digits_overlong; [exact Hf|exact Hl|exact digit_not_slash].
+Qed.
+
+Lemma ct_long_file fuel L f rest : tc L -> all_digits f -> (3 < length f)%nat ->
+  fullmatch_here fuel CT_RE (L :: f ++ rest) = NoMatch.
+Proof.
+  intros HL Hf Hl. unfold fullmatch_here, CT_RE, CT_RE_ast. cbn [rx_re rx_ic].
+  apply a_seq, a_group_chr; [unfold tc, lcl in HL; cbn; destruct HL as [H|H]; rewrite H; reflexivity|]. cbv beta.
+  apply group_digits_overlong; [exact Hf|exact Hl|exact digit_not_colon].
+Qed.
+
+Lemma io_long_file fuel L f rest : (0 < fuel)%nat -> io L -> all_digits f -> (3 < length f)%nat ->
+  fullmatch_here fuel IO_RE (L :: f ++ rest) = NoMatch.
+Proof.
+  intros Hfu HL Hf Hl. unfold fullmatch_here, IO_RE, IO_RE_ast. cbn [rx_re rx_ic].
+  apply a_seq, a_group_chr; [unfold io, lcl in HL; cbn; destruct HL as [H|H]; rewrite H; reflexivity|]. cbv beta.
+  apply a_seq. apply a_opt_none.
+  - match goal with |- m ?fu ?ic (Group ?i ?nm (Rep ?lo ?hi ?d)) ?s ?g (fun s' g' => m _ _ (Seq (Group ?j ?nm' (Chr [CLit ?w])) ?r) s' g' ?k) = _ =>
+      change (m fu ic (Seq (Group i nm (Rep lo hi d)) (Seq (Group j nm' (Chr [CLit w])) r)) s g k = NoMatch) end.
+    apply group_digits_overlong; [exact Hf|exact Hl|exact digit_not_colon].
+  - cbv beta. destruct f as [|d f]; [cbn in Hl; lia|]. inversion Hf; subst. cbn [app].
+    apply first_miss; [exact Hfu|]. cbn. rewrite lower_c_digit by assumption.
+    match goal with H : is_ascii_digit d = true |- _ => unfold is_ascii_digit in H end. lia.
+Qed.
+
+Lemma tc_search_miss_any rx L f e mn :
+  In rx [LFBN_RE; IO_RE; ST_RE; A_RE; S_RE; B_RE] ->
+  nullable (rx_re rx) = false ->
+  (forall d, is_ascii_digit d = true -> cannot_start rx d) -> (forall c, punct c -> cannot_start rx c) ->
+  cannot_start rx L -> anyrun f -> anyrun e -> In mn mn_variants ->
+  re_apply rx (L :: f ++ 58 :: e ++ 46 :: mn) = SNoMatch.
+Proof. intros _ _ _ _ HL _ _ _. rewrite re_apply_full. apply fullmatch_first_miss. exact HL. Qed.
+
+Lemma ct_long_search L f e mn : tc L -> anyrun f -> (3 < length f)%nat -> anyrun e -> In mn mn_variants ->
+  re_apply CT_RE (L :: f ++ 58 :: e ++ 46 :: mn) = SNoMatch.
+Proof.
+  intros HL Hf Hl He Hmn. rewrite re_apply_full. apply fullmatch_miss.
+  apply ct_long_file; [exact HL|exact (proj1 Hf)|exact Hl].
+Qed.
+
+(* a file number of more than three digits is never accepted, whatever follows *)
+Theorem long_file_lfbn L f rest : lfbn L -> anyrun f -> (3 < length f)%nat -> Forall body_char rest ->
+  parse_tag (L :: f ++ rest) = PNone.
+Proof.
+  intros HL Hf Hl Hr.
+  assert (Hbody : Forall body_char (f ++ rest)) by body2.
+  unfold parse_tag, orelse.
+  rewrite step_ct_none by (miss_simple; [destruct HL as [H|[H|[H|H]]]; cs_l H | exact Hbody]).
+  rewrite step_lfbn_none by (apply search_pos0_miss; [reflexivity|exact lfbn_digit|exact lfbn_punct|exact Hbody|
+                              apply lfbn_long_file; [exact HL|exact (proj1 Hf)|exact Hl]]).
+  rewrite step_io_none by (miss_simple; [destruct HL as [H|[H|[H|H]]]; cs_l H | exact Hbody]).
+  rewrite step_plain_none by (miss_simple; [destruct HL as [H|[H|[H|H]]]; cs_l H | exact Hbody]).
+  rewrite step_plain_none by (miss_simple; [destruct HL as [H|[H|[H|H]]]; cs_l H | exact Hbody]).
+  rewrite step_s_none by (miss_simple; [destruct HL as [H|[H|[H|H]]]; cs_l H | exact Hbody]).
+  rewrite step_b_none; [reflexivity|].
+  destruct HL as [H|[H|[H|H]]]; try (miss_simple; [cs_l H | exact Hbody]).
+  apply search_pos0_miss; [reflexivity|exact b_digit|exact b_punct|exact Hbody|].
+  apply b_long_file; [exact H|exact (proj1 Hf)|exact Hl].
+Qed.
+
+Theorem long_file_io L f rest : io L -> anyrun f -> (3 < length f)%nat -> Forall body_char rest ->
+  parse_tag (L :: f ++ rest) = PNone.
+Proof.
+  intros HL Hf Hl Hr.
+  assert (Hbody : Forall body_char (f ++ rest)) by body2.
+  unfold parse_tag, orelse.
+  rewrite step_ct_none by (miss_simple; [destruct HL as [H|H]; cs_l H | exact Hbody]).
+  rewrite step_lfbn_none by (miss_simple; [destruct HL as [H|H]; cs_l H | exact Hbody]).
+  rewrite step_io_none by (apply search_pos0_miss; [reflexivity|exact io_digit|exact io_punct|exact Hbody|
+                            apply io_long_file; [lia|exact HL|exact (proj1 Hf)|exact Hl]]).
+  rewrite step_plain_none by (miss_simple; [destruct HL as [H|H]; cs_l H | exact Hbody]).
+  rewrite step_plain_none by (miss_simple; [destruct HL as [H|H]; cs_l H | exact Hbody]).
+  rewrite step_s_none by (miss_simple; [destruct HL as [H|H]; cs_l H | exact Hbody]).
+  rewrite step_b_none; [reflexivity|]. miss_simple; [destruct HL as [H|H]; cs_l H | exact Hbody].
+Qed.
+
+Theorem long_file_tc L f e mn : tc L -> anyrun f -> (3 < length f)%nat -> anyrun e -> In mn mn_variants ->
+  parse_tag (L :: f ++ 58 :: e ++ 46 :: mn) = PNone.
+Proof.
+  intros HL Hf Hl He Hmn.
+  unfold parse_tag, orelse.
+  rewrite step_ct_none by (apply ct_long_search; assumption).
+  rewrite step_lfbn_none by (apply tc_search_miss_any; try assumption;
+    [cbn; tauto | reflexivity | exact lfbn_digit | exact lfbn_punct | destruct HL as [H|H]; cs_l H]).
+  rewrite step_io_none by (apply tc_search_miss_any; try assumption;
+    [cbn; tauto | reflexivity | exact io_digit | exact io_punct | destruct HL as [H|H]; cs_l H]).
+  rewrite step_plain_none by (apply tc_search_miss_any; try assumption;
+    [cbn; tauto | reflexivity | exact st_digit | exact st_punct | destruct HL as [H|H]; cs_l H]).
+  rewrite step_plain_none by (apply tc_search_miss_any; try assumption;
+    [cbn; tauto | reflexivity | exact a_digit | exact a_punct | destruct HL as [H|H]; cs_l H]).
+  rewrite step_s_none by (apply tc_search_miss_any; try assumption;
+    [cbn; tauto | reflexivity | exact s_digit | exact s_punct | destruct HL as [H|H]; cs_l H]).
+  rewrite step_b_none; [reflexivity|]. apply tc_search_miss_any; try assumption;
+    [cbn; tauto | reflexivity | exact b_digit | exact b_punct | destruct HL as [H|H]; cs_l H].
+Qed.
+
+(* ---------------------------------------------------------------- element / word / bit runs longer than the grammar allows *)
+(* With fullmatch nothing may be left over: after at most hi digits of a longer run the next
+   character is a digit, which neither the next literal nor the end of the text accepts. *)
+Definition longrun (n : nat) (ds : text) : Prop := all_digits ds /\ (n < length ds)%nat.
+
+Ltac blind :=
+  let d := fresh "d" in let s0 := fresh "s0" in let g0 := fresh "g0" in let Hd := fresh "Hd" in
+  intros d s0 g0 Hd; cbv beta;
+  repeat first
+    [ reflexivity
+    | apply first_miss; [lia | cbn; rewrite ?(lower_c_digit d Hd); unfold is_ascii_digit in Hd; lia]
+    | apply m_skip; [lia | cbn; rewrite ?(lower_c_digit d Hd); unfold is_ascii_digit in Hd; lia | intros ?; cbv beta] ].
+
+Ltac nod := first [exact I | reflexivity].
+
+Ltac fl1 :=
+  lazymatch goal with
+  | |- m _ _ (Seq _ _) _ _ _ = _ => apply a_seq
+  | |- m _ _ (Group _ _ (Chr _)) (_ :: _) _ _ = _ => apply a_group_chr; [first [assumption | reflexivity] | cbv beta]
+  | |- m _ _ (Chr _) (_ :: _) _ _ = _ => apply a_chr; [reflexivity | cbv beta]
+  | |- m _ _ (Group _ _ (Rep _ _ (Chr [CDigit]))) (?ds ++ _) _ _ = _ =>
+      first [ apply group_digits_overlong_k; [match goal with H : longrun _ ds |- _ => exact (proj1 H) end
+                                             | match goal with H : longrun _ ds |- _ => exact (proj2 H) end | blind]
+            | apply a_group_digits; [digits_ok | len_ok | len_ok | nod | blind | cbv beta] ]
+  | |- m _ _ (Opt _) _ _ _ = _ =>
+      apply a_opt_none; [first [apply first_miss; [lia | reflexivity] | apply empty_miss; [lia | reflexivity] | idtac] | cbv beta]
+  | |- m _ _ (Group _ _ _) _ _ _ = _ => apply a_group
+  | |- at_end (_ :: _) _ = _ => reflexivity
+  end.
+Ltac fl := repeat fl1.
+
+Lemma lfbn_letter_match L : lfbn L -> cc_match true [CLit 76; CLit 70; CLit 66; CLit 78] L = true.
+Proof. unfold lfbn, lcl. intros HL. cbn. destruct HL as [H|[H|[H|H]]]; rewrite H; reflexivity. Qed.
+Lemma io_letter_match L : io L -> cc_match true [CLit 73; CLit 79] L = true.
+Proof. unfold io, lcl. intros HL. cbn. destruct HL as [H|H]; rewrite H; reflexivity. Qed.
+Lemma tc_letter_match L : tc L -> cc_match true [CLit 67; CLit 84] L = true.
+Proof. unfold tc, lcl. intros HL. cbn. destruct HL as [H|H]; rewrite H; reflexivity. Qed.
+
+Lemma lfbn_long_elem fuel L f e rest : (0 < fuel)%nat -> lfbn L -> run 3 f -> longrun 3 e ->
+  fullmatch_here fuel LFBN_RE (L :: f ++ 58 :: e ++ rest) = NoMatch.
+Proof.
+  intros Hfu HL Hf He. pose proof (lfbn_letter_match L HL) as HLm.
+  unfold fullmatch_here, LFBN_RE, LFBN_RE_ast. cbn [rx_re rx_ic]. fl.
+Qed.
+
+Lemma lfbn_long_bit fuel L f e b rest : (0 < fuel)%nat -> lfbn L -> run 3 f -> run 3 e -> longrun 2 b ->
+  fullmatch_here fuel LFBN_RE (L :: f ++ 58 :: e ++ 47 :: b ++ rest) = NoMatch.
+Proof.
+  intros Hfu HL Hf He Hb. pose proof (lfbn_letter_match L HL) as HLm.
+  unfold fullmatch_here, LFBN_RE, LFBN_RE_ast. cbn [rx_re rx_ic]. fl.
+Qed.
+
+Lemma s_long_elem fuel L e rest : (0 < fuel)%nat -> lcl L 115 -> longrun 3 e ->
+  fullmatch_here fuel S_RE (L :: 58 :: e ++ rest) = NoMatch.
+Proof.
+  intros Hfu HL He. assert (HLm : cc_match true [CLit 83] L = true) by (unfold lcl in HL; cbn; rewrite HL; reflexivity).
+  unfold fullmatch_here, S_RE, S_RE_ast. cbn [rx_re rx_ic]. fl.
+Qed.
+
+Lemma s_long_bit fuel L e b rest : (0 < fuel)%nat -> lcl L 115 -> run 3 e -> longrun 2 b ->
+  fullmatch_here fuel S_RE (L :: 58 :: e ++ 47 :: b ++ rest) = NoMatch.
+Proof.
+  intros Hfu HL He Hb. assert (HLm : cc_match true [CLit 83] L = true) by (unfold lcl in HL; cbn; rewrite HL; reflexivity).
+  unfold fullmatch_here, S_RE, S_RE_ast. cbn [rx_re rx_ic]. fl.
+Qed.
+
+Lemma b_long_n fuel L f n rest : (0 < fuel)%nat -> lcl L 98 -> run 3 f -> longrun 4 n ->
+  fullmatch_here fuel B_RE (L :: f ++ 47 :: n ++ rest) = NoMatch.
+Proof.
+  intros Hfu HL Hf Hn. assert (HLm : cc_match true [CLit 66] L = true) by (unfold lcl in HL; cbn; rewrite HL; reflexivity).
+  unfold fullmatch_here, B_RE, B_RE_ast. cbn [rx_re rx_ic]. fl.
+Qed.
+
+(* an optional digit group that is present, on the way to a failure *)
+Lemma a_opt_group_digits fuel ic i nm lo hi ds rest g k :
+  all_digits ds -> (1 <= length ds)%nat -> (lo <= length ds)%nat -> (length ds <= hi)%nat -> nodigit_head rest ->
+  digit_blind k -> k rest (gset i ds g) = NoMatch ->
+  m fuel ic (Opt (Group i nm (Rep lo hi (Chr [CDigit])))) (ds ++ rest) g k = NoMatch.
+Proof.
+  intros Hd H1 Hlo Hhi Hend Hk HR. apply a_opt_none.
+  - apply a_group_digits; assumption.
+  - destruct ds as [|d ds]; [cbn in H1; lia|]. inversion Hd; subst. cbn [app]. apply Hk. assumption.
+Qed.
+
+Ltac fl1' :=
+  lazymatch goal with
+  | |- m _ _ (Opt (Group _ _ (Rep _ _ (Chr [CDigit])))) (?ds ++ _) _ _ = _ =>
+      apply a_opt_group_digits; [digits_ok | len_ok | len_ok | len_ok | nod | blind | cbv beta]
+  | |- _ => fl1
+  end.
+Ltac fl' := repeat fl1'.
+
+Lemma io_long_elem fuel L file e rest : (0 < fuel)%nat -> io L -> optrun 3 file -> longrun 3 e ->
+  fullmatch_here fuel IO_RE (L :: otext file ++ 58 :: e ++ rest) = NoMatch.
+Proof.
+  intros Hfu HL Hfile He. pose proof (io_letter_match L HL) as HLm.
+  unfold fullmatch_here, IO_RE, IO_RE_ast. cbn [rx_re rx_ic].
+  destruct file as [fl0|]; split_opts; cbn [otext app]; fl'.
+Qed.
+
+Lemma io_long_sub fuel L file e w rest : (0 < fuel)%nat -> io L -> optrun 3 file -> run 3 e -> longrun 3 w ->
+  fullmatch_here fuel IO_RE (L :: otext file ++ 58 :: e ++ 46 :: w ++ rest) = NoMatch.
+Proof.
+  intros Hfu HL Hfile He Hw. pose proof (io_letter_match L HL) as HLm.
+  unfold fullmatch_here, IO_RE, IO_RE_ast. cbn [rx_re rx_ic].
+  destruct file as [fl0|]; split_opts; cbn [otext app]; fl'.
+Qed.
+
+Lemma io_long_bit fuel L file e sub b rest : (0 < fuel)%nat -> io L -> optrun 3 file -> run 3 e -> optrun 3 sub -> longrun 2 b ->
+  fullmatch_here fuel IO_RE (L :: otext file ++ 58 :: e ++ subpart sub ++ 47 :: b ++ rest) = NoMatch.
+Proof.
+  intros Hfu HL Hfile He Hs Hb. pose proof (io_letter_match L HL) as HLm.
+  unfold fullmatch_here, IO_RE, IO_RE_ast. cbn [rx_re rx_ic].
+  destruct file as [fl0|]; destruct sub as [w|]; split_opts; cbn [otext subpart app]; fl'.
+Qed.
+
+(* T/C: after the element comes "any character" and a mnemonic; a fourth element digit is taken
+   as that character and then the mnemonic does not start with a letter *)
+Lemma ct_long_elem fuel L f e rest : (0 < fuel)%nat -> tc L -> run 3 f -> longrun 3 e ->
+  fullmatch_here fuel CT_RE (L :: f ++ 58 :: e ++ 46 :: rest) = NoMatch.
+Proof.
+  intros Hfu HL Hf [He Hl]. pose proof (tc_letter_match L HL) as HLm.
+  unfold fullmatch_here, CT_RE, CT_RE_ast. cbn [rx_re rx_ic].
+  apply a_seq, a_group_chr; [exact HLm|]. cbv beta.
+  apply a_seq, a_group_digits; [digits_ok | len_ok | len_ok | nod | blind |]. cbv beta.
+  apply a_seq, a_group_chr; [reflexivity|]. cbv beta. apply a_seq.
+  match goal with |- m ?fu ?ic (Group ?i ?nm (Rep ?lo ?hi _)) ?s ?g ?k = _ =>
+    change (rep_loop (m fu ic (Chr [CDigit])) lo hi s g (fun s' g' => k s' (gset i (span s s') g')) = NoMatch) end.
+  apply rep_loop_fail_idx with (P := fun n s => exists ds', all_digits ds' /\ (n < length ds')%nat /\ s = ds' ++ 46 :: rest).
+  - intros n x s (ds' & Hds' & Hn & E) Hx. destruct ds' as [|d ds']; [cbn in Hn; lia|].
+    cbn [app] in E. injection E as E1 E2. subst. inversion Hds'; subst. exists ds'. repeat split; [assumption|cbn in Hn; lia].
+  - intros n s g0 (ds' & Hds' & Hn & E). subst s. cbv beta.
+    destruct ds' as [|d ds']; [cbn in Hn; lia|]. inversion Hds' as [|? ? Hd Hds'']; subst. cbn [app].
+    apply a_seq, a_group_chr; [cbn; unfold is_ascii_digit in Hd; destruct (d =? 10) eqn:E; [lia|reflexivity]|]. cbv beta.
+    destruct ds' as [|d2 ds']; cbn [app].
+    + apply first_miss; [lia|reflexivity].
+    + inversion Hds'' as [|? ? Hd2 _]; subst. apply first_miss; [lia|].
+      cbn. rewrite (lower_c_digit d2 Hd2). unfold is_ascii_digit in Hd2. lia.
+  - exists e. repeat split; assumption.
+Qed.
+
+(* ---- the families: a run longer than the grammar allows makes parse_tag return None *)
+Ltac other_miss HL Hbody := miss_simple; [first [cs_l HL | destruct HL as [H|[H|[H|H]]]; cs_l H | destruct HL as [H|H]; cs_l H] | exact Hbody].
+
+Theorem long_lfbn L f rest body :
+  lfbn L -> run 3 f -> Forall body_char body -> rest = 58 :: body ->
+  fullmatch_here (S (length (L :: f ++ rest))) LFBN_RE (L :: f ++ rest) = NoMatch ->
+  parse_tag (L :: f ++ rest) = PNone.
+Proof.
+  intros HL Hf Hb -> Hm.
+  assert (Hbody : Forall body_char (f ++ 58 :: body)) by body2.
+  unfold parse_tag, orelse.
+  rewrite step_ct_none by (other_miss HL Hbody).
+  rewrite step_lfbn_none by (rewrite re_apply_full; apply fullmatch_miss; exact Hm).
+  rewrite step_io_none by (other_miss HL Hbody).
+  rewrite step_plain_none by (other_miss HL Hbody).
+  rewrite step_plain_none by (other_miss HL Hbody).
+  rewrite step_s_none by (other_miss HL Hbody).
+  rewrite step_b_none; [reflexivity|].
+  destruct HL as [H|[H|[H|H]]]; try (miss_simple; [cs_l H | exact Hbody]).
+  apply b_miss_colon; [exact H|exact (run_any _ _ Hf)|exact Hb].
+Qed.
+
+Theorem long_s L body :
+  lcl L 115 -> Forall body_char body ->
+  fullmatch_here (S (length (L :: 58 :: body))) S_RE (L :: 58 :: body) = NoMatch ->
+  parse_tag (L :: 58 :: body) = PNone.
+Proof.
+  intros HL Hb Hm.
+  assert (Hbody : Forall body_char (58 :: body)) by body2.
+  unfold parse_tag, orelse.
+  rewrite step_ct_none by (other_miss HL Hbody).
+  rewrite step_lfbn_none by (other_miss HL Hbody).
+  rewrite step_io_none by (other_miss HL Hbody).
+  rewrite step_plain_none by (apply st_miss_status; assumption).
+  rewrite step_plain_none by (other_miss HL Hbody).
+  rewrite step_s_none by (rewrite re_apply_full; apply fullmatch_miss; exact Hm).
+  rewrite step_b_none; [reflexivity|]. other_miss HL Hbody.
+Qed.
+
+Theorem long_io L body :
+  io L -> Forall body_char body ->
+  fullmatch_here (S (length (L :: body))) IO_RE (L :: body) = NoMatch ->
+  parse_tag (L :: body) = PNone.
+Proof.
+  intros HL Hbody Hm.
+  unfold parse_tag, orelse.
+  rewrite step_ct_none by (other_miss HL Hbody).
+  rewrite step_lfbn_none by (other_miss HL Hbody).
+  rewrite step_io_none by (rewrite re_apply_full; apply fullmatch_miss; exact Hm).
+  rewrite step_plain_none by (other_miss HL Hbody).
+  rewrite step_plain_none by (other_miss HL Hbody).
+  rewrite step_s_none by (other_miss HL Hbody).
+  rewrite step_b_none; [reflexivity|]. other_miss HL Hbody.
+Qed.
+
+Theorem long_flat L f n rest :
+  lcl L 98 -> run 3 f -> longrun 4 n -> Forall body_char rest ->
+  parse_tag (L :: f ++ 47 :: n ++ rest) = PNone.
+Proof.
+  intros HL Hf Hn Hr.
+  assert (Hrest : Forall body_char (n ++ rest)).
+  { apply Forall_app. split; [|exact Hr]. eapply Forall_impl; [|exact (proj1 Hn)]. intros c Hc. left. exact Hc. }
+  assert (Hbody : Forall body_char (f ++ 47 :: n ++ rest)) by body2.
+  unfold parse_tag, orelse.
+  rewrite step_ct_none by (other_miss HL Hbody).
+  rewrite step_lfbn_none by (apply lfbn_miss_flat; [exact HL|exact (run_any _ _ Hf)|exact Hrest]).
+  rewrite step_io_none by (other_miss HL Hbody).
+  rewrite step_plain_none by (other_miss HL Hbody).
+  rewrite step_plain_none by (other_miss HL Hbody).
+  rewrite step_s_none by (other_miss HL Hbody).
+  rewrite step_b_none; [reflexivity|]. rewrite re_apply_full. apply fullmatch_miss. apply b_long_n; [lia|assumption..].
+Qed.
+
+Theorem long_tc L f e mn :
+  tc L -> run 3 f -> longrun 3 e -> In mn mn_variants ->
+  parse_tag (L :: f ++ 58 :: e ++ 46 :: mn) = PNone.
+Proof.
+  intros HL Hf He Hmn.
+  assert (Ae : anyrun e).
+  { destruct He as [A B]. split; [exact A|]. destruct e; [cbn in B; lia|congruence]. }
+  unfold parse_tag, orelse.
+  rewrite step_ct_none by (rewrite re_apply_full; apply fullmatch_miss; apply ct_long_elem; [lia|assumption..]).
+  rewrite step_lfbn_none by (apply tc_search_miss_any; try assumption; try exact (run_any _ _ Hf);
+    [cbn; tauto | reflexivity | exact lfbn_digit | exact lfbn_punct | destruct HL as [H|H]; cs_l H]).
+  rewrite step_io_none by (apply tc_search_miss_any; try assumption; try exact (run_any _ _ Hf);
+    [cbn; tauto | reflexivity | exact io_digit | exact io_punct | destruct HL as [H|H]; cs_l H]).
+  rewrite step_plain_none by (apply tc_search_miss_any; try assumption; try exact (run_any _ _ Hf);
+    [cbn; tauto | reflexivity | exact st_digit | exact st_punct | destruct HL as [H|H]; cs_l H]).
+  rewrite step_plain_none by (apply tc_search_miss_any; try assumption; try exact (run_any _ _ Hf);
+    [cbn; tauto | reflexivity | exact a_digit | exact a_punct | destruct HL as [H|H]; cs_l H]).
+  rewrite step_s_none by (apply tc_search_miss_any; try assumption; try exact (run_any _ _ Hf);
+    [cbn; tauto | reflexivity | exact s_digit | exact s_punct | destruct HL as [H|H]; cs_l H]).
+  rewrite step_b_none; [reflexivity|]. apply tc_search_miss_any; try assumption; try exact (run_any _ _ Hf);
+    [cbn; tauto | reflexivity | exact b_digit | exact b_punct | destruct HL as [H|H]; cs_l H].
 Qed.
